@@ -119,7 +119,10 @@ impl AsyncWrite for RecWriter {
 enum FramerSpec {
     Ld(usize, bool),
     Any(Vec<u8>),
-    Char(u32),
+    /// (code point, constructed through `Default::default()` instead of `new()`)
+    Char(u32, bool),
+    /// `LengthDelimited::default()`
+    LdDefault,
     Noop,
 }
 
@@ -128,7 +131,9 @@ fn parse_framer(s: &str) -> FramerSpec {
     match parts[0] {
         "ld" => FramerSpec::Ld(parts[1].parse().unwrap(), parts[2] == "1"),
         "any" => FramerSpec::Any(unhex(parts[1])),
-        "char" => FramerSpec::Char(parts[1].parse().unwrap()),
+        "char" => FramerSpec::Char(parts[1].parse().unwrap(), false),
+        "chard" => FramerSpec::Char(parts[1].parse().unwrap(), true),
+        "ldd" => FramerSpec::LdDefault,
         "noop" => FramerSpec::Noop,
         _ => panic!("framer {s}"),
     }
@@ -151,27 +156,52 @@ macro_rules! with_framer {
                 let mut $f = AnyDelimited::new(d);
                 $body
             }
-            FramerSpec::Char(10) => {
+            FramerSpec::Char(10, false) => {
                 #[allow(unused_mut)]
                 let mut $f = CharDelimited::<'\n'>::new();
                 $body
             }
-            FramerSpec::Char(0xE9) => {
+            FramerSpec::Char(10, true) => {
+                #[allow(unused_mut)]
+                let mut $f = <CharDelimited<'\n'> as Default>::default();
+                $body
+            }
+            FramerSpec::Char(0xE9, false) => {
                 #[allow(unused_mut)]
                 let mut $f = CharDelimited::<'é'>::new();
                 $body
             }
-            FramerSpec::Char(0x211D) => {
+            FramerSpec::Char(0xE9, true) => {
+                #[allow(unused_mut)]
+                let mut $f = <CharDelimited<'é'> as Default>::default();
+                $body
+            }
+            FramerSpec::Char(0x211D, false) => {
                 #[allow(unused_mut)]
                 let mut $f = CharDelimited::<'ℝ'>::new();
                 $body
             }
-            FramerSpec::Char(0x1F600) => {
+            FramerSpec::Char(0x211D, true) => {
+                #[allow(unused_mut)]
+                let mut $f = <CharDelimited<'ℝ'> as Default>::default();
+                $body
+            }
+            FramerSpec::Char(0x1F600, false) => {
                 #[allow(unused_mut)]
                 let mut $f = CharDelimited::<'😀'>::new();
                 $body
             }
-            FramerSpec::Char(c) => panic!("unsupported char {c}"),
+            FramerSpec::Char(0x1F600, true) => {
+                #[allow(unused_mut)]
+                let mut $f = <CharDelimited<'😀'> as Default>::default();
+                $body
+            }
+            FramerSpec::Char(c, _) => panic!("unsupported char {c}"),
+            FramerSpec::LdDefault => {
+                #[allow(unused_mut)]
+                let mut $f = LengthDelimited::default();
+                $body
+            }
             FramerSpec::Noop => {
                 #[allow(unused_mut)]
                 let mut $f = NoopFramer::new();
@@ -579,6 +609,7 @@ fn numlist(v: &[usize]) -> String {
 
 fn gen_framer(rng: &mut Rng) -> (String, FramerSpec) {
     match rng.below(10) {
+        0..=4 if rng.chance(1, 12) => ("ldd".into(), FramerSpec::LdDefault),
         0..=4 => {
             let lfl = rng.range(1, 8) as usize;
             let be = rng.chance(1, 2);
@@ -591,7 +622,11 @@ fn gen_framer(rng: &mut Rng) -> (String, FramerSpec) {
         }
         7..=8 => {
             let c = *rng.pick(&[10u32, 0xE9, 0x211D, 0x1F600]);
-            (format!("char:{c}"), FramerSpec::Char(c))
+            if rng.chance(1, 3) {
+                (format!("chard:{c}"), FramerSpec::Char(c, true))
+            } else {
+                (format!("char:{c}"), FramerSpec::Char(c, false))
+            }
         }
         _ => ("noop".into(), FramerSpec::Noop),
     }
@@ -600,7 +635,7 @@ fn gen_framer(rng: &mut Rng) -> (String, FramerSpec) {
 fn delim_of(spec: &FramerSpec) -> Option<Vec<u8>> {
     match spec {
         FramerSpec::Any(d) => Some(d.clone()),
-        FramerSpec::Char(c) => Some(char::from_u32(*c).unwrap().to_string().into_bytes()),
+        FramerSpec::Char(c, _) => Some(char::from_u32(*c).unwrap().to_string().into_bytes()),
         _ => None,
     }
 }
@@ -609,7 +644,8 @@ fn delim_of(spec: &FramerSpec) -> Option<Vec<u8>> {
 fn wellformed(spec: &FramerSpec, p: &[u8]) -> bool {
     match spec {
         FramerSpec::Ld(lfl, _) => *lfl >= 8 || (p.len() as u128) < (1u128 << (8 * lfl)),
-        FramerSpec::Any(_) | FramerSpec::Char(_) => {
+        FramerSpec::LdDefault => (p.len() as u128) < (1u128 << 32),
+        FramerSpec::Any(_) | FramerSpec::Char(..) => {
             let d = delim_of(spec).unwrap();
             let mut s = p.to_vec();
             s.extend_from_slice(&d);
@@ -722,7 +758,7 @@ fn generate(tier: &str, rng: &mut Rng) -> Vec<Case> {
                     } else if rng.chance(1, 10) && !p.is_empty() {
                         p[0] = 0xEF; // an item the encoder refuses after partial output
                     }
-                    if matches!(spec, FramerSpec::Any(_) | FramerSpec::Char(_)) && !wellformed(&spec, &p) && rng.chance(9, 10) {
+                    if matches!(spec, FramerSpec::Any(_) | FramerSpec::Char(..)) && !wellformed(&spec, &p) && rng.chance(9, 10) {
                         // mostly valid inputs: drop the delimiter bytes from the payload
                         let d = delim_of(&spec).unwrap();
                         p.retain(|b| !d.contains(b));
